@@ -150,8 +150,18 @@ def norm(segs):
     for s in segs:
         if s[0] == 'val':
             s = ('val', norm_spec(s[1], s[2]), s[2])
-        elif s[0] == 'chars' and all(isinstance(c, Int) and c.concrete for c in s[1]):
+            if isinstance(s[2], Int) and s[1].startswith('lower_hex') and ':w' in s[1]:
+                # zero-padded hex of a value that fits its width = exactly that many hex digits: compared as
+                # characters, so `{:02x}{:02x}{:02x}` of three bytes and `{:06x}` of the 24-bit value are the same text
+                from checks.c04 import seg_hex_chars
+                cs = seg_hex_chars(s)
+                if cs is not None:
+                    s = ('chars', tuple(Int('char', c) for c in cs))
+        if s[0] == 'chars' and all(isinstance(c, Int) and c.concrete for c in s[1]):
             s = ('lit', ''.join(chr(c.v) for c in s[1]))
+        if s[0] == 'chars' and out and out[-1][0] == 'chars':
+            out[-1] = ('chars', tuple(out[-1][1]) + tuple(s[1]))
+            continue
         if s[0] == 'lit':
             if not s[1]:
                 continue
